@@ -270,6 +270,20 @@ def solve_vc(pc, formula, timeout_ms, symbols):
         return "unsat", None, time.time() - t0, "z3"
     if r == z3.sat:
         return "sat", model_of(s), time.time() - t0, "z3"
+    # the default tactic is order-sensitive: the same VC built with another allocation order of its terms can take 0.1 s or minutes.  Before anything expensive,
+    # a few short re-seeded attempts with the assertions rotated (same formulas, so any answer is as good as the first attempt's)
+    body = list(pc) + [z3.Not(formula)]
+    for seed in (1, 2, 3):
+        sr = z3.Solver()
+        sr.set("timeout", first_budget)
+        sr.set("random_seed", seed)
+        k = (seed * 7) % max(len(body), 1)
+        sr.add(*(body[k:] + body[:k]))
+        rr = sr.check()
+        if rr == z3.unsat:
+            return "unsat", None, time.time() - t0, "z3"
+        if rr == z3.sat:
+            return "sat", model_of(sr), time.time() - t0, "z3"
     # cheap first: numeric evaluation of the whole VC at a few sampled real inputs (standard interpretation of exp/log/...)
     try:
         from .refute import refute_numerically
